@@ -277,6 +277,8 @@ func vrtBatchHarness(nocheck bool) {
 				outs.Add(outs, new(big.Int).SetUint64(tr.Amount))
 			}
 			vrt.Assert("C04.executed-transfer-outputs-add-up-to-its-input", outs.Cmp(new(big.Int).SetUint64(t.Input.Amount)) == 0)
+			// read as C03: what an executed transfer pays out is covered by what it debits
+			vrt.Assert("C03.executed-transfer-pays-out-no-more-than-it-debits", outs.Cmp(new(big.Int).SetUint64(t.Input.Amount)) <= 0)
 			for _, tr := range t.Transfers {
 				if height >= specV202 && tr.Address == burn {
 					continue // burned: debited, credited to nobody
